@@ -492,7 +492,7 @@ class Explorer:
     """Depth-first path exploration by re-execution."""
 
     def __init__(self, body, *, name="case", max_paths=200000, time_budget=600.0, solver_timeout_ms=20000,
-                 recip_mode=False, known_regions=None, max_cex_per_label=2, logic=None, part=None):
+                 recip_mode=False, known_regions=None, max_cex_per_label=2, logic=None, part=None, witness_paths=3):
         self.body = body
         self.name = name
         self.max_paths = max_paths
@@ -506,6 +506,8 @@ class Explorer:
         self.known_hits = []  # (label, region_id, values)
         self.incomplete = None
         self.logic = logic
+        self.witness_paths = witness_paths
+        self.witnesses = []
         self.part = part  # (i, m): explore only the paths whose first m genuine forks follow the bits of i
         # per-path state
         self.solver = None
@@ -787,8 +789,13 @@ class Explorer:
             self.scratch = {}
             prev, _CUR = _CUR, self
             try:
+                ncex = len(self.cex) + len(self.known_hits)
                 self.body(self)
                 self.stats.paths += 1
+                if len(self.witnesses) < self.witness_paths and ncex == len(self.cex) + len(self.known_hits) and self.inputs \
+                        and (self.stats.paths <= 1 or self.stats.paths % 7 == 3 or not self.pending):
+                    if self._check() == z3.sat:
+                        self.witnesses.append(self.model_values(self.solver.model()))
             except PathAbort:
                 self.stats.aborted += 1
             except (SymUnsupported, Inconclusive) as e:
